@@ -12,7 +12,7 @@
 (*                  "n/a" (receiver not applicable to this list),          *)
 (*                  args, kwargs (sequence of [k, v]), flags]               *)
 (* Values are typed: int i, str s, float s, bool b, none, list items, dict  *)
-(* items (sequence of [k, v]), other s.                                     *)
+(* items (sequence of [k, v]), other s.  (A str marked safe counts as str.) *)
 (* A record is accepted when text = Text(args, style) and, on both paths,   *)
 (* the received values are Denote(args) with leaves replaced by the         *)
 (* recorded stock values (looked up by the specification's own canonical    *)
@@ -44,11 +44,18 @@ Same(a, b) ==
                                  Same(a.items[i].k, b.items[j].k) /\ Same(a.items[i].v, b.items[j].v)
        [] OTHER         -> FALSE
 
-\* Python dict display: a later equal key replaces the value - keep the last entry per key.
+\* Python dict display: entries are inserted in order; an entry whose key EQUALS an earlier key
+\* (Python ==: False = 0, True = 1, otherwise same type and value) replaces that entry's value and
+\* the earlier key object stays - keep the first key with the last value.
+PyKey(k) == IF k.t = "bool" THEN I(IF k.b THEN 1 ELSE 0) ELSE k
+KeyEq(a, b) == Same(PyKey(a), PyKey(b))
 Dedupe(es) ==
-  LET keep == {i \in 1..Len(es) : \A j \in (i + 1)..Len(es) : ~Same(es[i].k, es[j].k)}
+  LET keep == {i \in 1..Len(es) : \A j \in 1..(i - 1) : ~KeyEq(es[i].k, es[j].k)}
+      last(i) == CHOOSE j \in i..Len(es) : /\ KeyEq(es[i].k, es[j].k)
+                                           /\ \A m \in (j + 1)..Len(es) : ~KeyEq(es[i].k, es[m].k)
       RECURSIVE Pick(_)
-      Pick(i) == IF i > Len(es) THEN <<>> ELSE (IF i \in keep THEN <<es[i]>> ELSE <<>>) \o Pick(i + 1)
+      Pick(i) == IF i > Len(es) THEN <<>>
+                 ELSE (IF i \in keep THEN <<E(es[i].k, es[last(i)].v)>> ELSE <<>>) \o Pick(i + 1)
   IN Pick(1)
 
 RECURSIVE Ev(_, _), EvItems(_, _, _), EvEntries(_, _, _)
